@@ -6,6 +6,7 @@ package liveness
 
 //@ import time "time"
 //@ import lru "github.com/hashicorp/golang-lru"
+//@ import log "github.com/refraction-networking/conjure/pkg/station/log"
 
 // ---------------- C18: cached liveness verdicts ----------------
 // "answered from the cache only if it was measured less than the configured lifetime ago": a hit implies that the
@@ -52,6 +53,10 @@ package liveness
 //@   assigns now()
 //@ func (c cache) Add(key string, elem *cacheElement)
 //@   assigns memory
+//@ func (c cache) Len() int
+//@   assigns nothing
+//@ func (c cache) Cap() float64
+//@   assigns nothing
 
 // a verdict is probed only when neither cache answered, and is stored in the cache matching the measured verdict
 //@ func (blt *CachedLivenessTester) PhantomIsLive(addr string, port uint16) (bool, error)
@@ -65,3 +70,10 @@ package liveness
 //@   requires blt != nil
 //@   ensures @C18: result1 != nil ==> result1 == ErrCachedPhantom
 //@   assigns now()
+
+// ---------------- C19: statistics reporting never panics for any accepted configuration ----------------
+// Each cache is optional (absent when its expiration is not configured): Init accepts all four combinations.
+//@ func (blt *CachedLivenessTester) printStats(logger *log.Logger)
+//@   requires blt != nil && blt.stats != nil && logger != nil
+//@   ensures @C19: true
+//@   checks safety
